@@ -57,6 +57,17 @@ def gen(rng, tier):
         if rng.random() < 0.3:
             sc = "+".join([hx("GET /n200 HTTP/1.1\r\n\r\n"), sc])
         cases.append("S %d ok %s %d %s" % (S, rng.choice(["0", "4096,1000,30000"]), 0, sc))
+    # disk write failure while the upload is being saved (mode X: RLIMIT_FSIZE below the body length, SIGXFSZ ignored, so
+    # the write fails with EFBIG like on a full disk -- at the first block, in the middle, at the very last byte): the
+    # handler must not get a shortened body, the answer is the 500 of ErrorSavingFile, no file stays behind
+    for L in (200, 7000, 70000, 131073):
+        for lim in sorted(set([0, 1, 100, 4096, 65536, L - 1])):
+            if lim >= L:
+                continue
+            for declared in (True, False):
+                if tier == "quick" and L > 7000 and lim not in (4096, L - 1):
+                    continue
+                cases.append("X %d ok %d %s" % (S, lim, upload("/g%d" % (L + 5), L, L, declared, False, rng.randint(1, 10**6), declared)))
     # idle keep-alive: the client has read the answers and keeps the connection open without sending anything; no temp
     # file may be alive then (mode I: known-length uploads answered 2xx, one or two on the same connection)
     ni = 6 if tier == "quick" else 60
@@ -77,7 +88,7 @@ def classify(case, model):
     t = case.split()
     if t[0] == "tables":
         return "tables"
-    return "%s:cache=%s:%s" % (t[0], t[2], "file-created" if ":F" in model else "no-file")
+    return "%s:cache=%s:%s" % (t[0], t[2] if t[0] != "X" else "write-fault", "file-created" if ":F" in model else "no-file")
 
 def nontrivial(case, model):
     return ":K" in model or ":U" in model
